@@ -58,10 +58,13 @@ _SUB_CACHE = {}
 def include(ctx, r, modname, rid, pick=None, prefix=None):
     """Re-use the instances of another property's rule `rid` (evaluated on the same facts) inside rule r."""
     import importlib
+    if getattr(ctx, '_is_sub', False):
+        return 0  # a property evaluated only to lend its own rules does not need the ones it borrows (and two properties may borrow from each other)
     key = (id(ctx.facts), modname)
     if key not in _SUB_CACHE:
         mod = importlib.import_module('rules.' + modname)
         sub = type(ctx)(ctx.facts, ctx.info, ctx.prop, ctx.tier, ctx.config)
+        sub._is_sub = True
         mod.run(sub)
         _SUB_CACHE[key] = sub
     sub = _SUB_CACHE[key]
